@@ -158,6 +158,18 @@ static Verdict runOn(const DescT<Obj>& d, const Case& c, Info& info)
     {
         if (c.ops[i].field >= 0x8000)
         {
+            if (d.payloadSetter)
+            {
+                // Packet::setPayload: the payload field takes the new value, every header field keeps its own
+                m.data = d.payloadSetter(o, c.ops[i].value);
+                std::ostringstream what;
+                what << "op " << i << ": setPayload(type 0x" << std::hex << ((m.data[0] << 8) | m.data[1]) << std::dec << ", " << m.data.size() - 2 << " bytes)";
+                VF_TRY(m.check(o, what.str()));
+                ++writes;
+                changedOnNonZero = true;
+                info.tag("packet_set_payload");
+                continue;
+            }
             // group setter (raw run of header bytes); classes without one skip the op
             if (d.groups.empty())
                 continue;
@@ -228,6 +240,27 @@ static void enumerate(int, const std::function<bool(const Case&)>& emit)
             nGroups = desc.groups.size();
             return Verdict::pass();
         });
+        bool hasPayloadSetter = false;
+        withClass(cls, [&](auto desc) {
+            hasPayloadSetter = static_cast<bool>(desc.payloadSetter);
+            return Verdict::pass();
+        });
+        if (hasPayloadSetter)
+            for (uint64_t t = 0; t < 12; ++t)
+                for (uint64_t n : {0, 1, 8, 16, 17, 40, 79})
+                    for (uint64_t ones = 0; ones < 2; ++ones)
+                    {
+                        Case c;
+                        c.cls = static_cast<uint8_t>(cls);
+                        c.bg = 2;
+                        c.seed = static_cast<uint32_t>(t * 31 + n);
+                        Op op;
+                        op.field = 0x8000;
+                        op.value = t | (ones << 7) | (n << 8) | ((t * 977 + n + 1) << 16);
+                        c.ops.push_back(op);
+                        if (!emit(c))
+                            return;
+                    }
         // group setters: every group x every length x backgrounds
         for (size_t g = 0; g < nGroups; ++g)
             for (uint64_t n = 0; n <= 12; ++n)
